@@ -736,7 +736,10 @@ def emit(doc: Document, format_options: FormatOptions | None = None) -> str:
 
     # Emit META if present
     if doc.meta:
-        lines.append(emit_meta(doc.meta, format_options))
+        # I2: a META block whose fields are all absent leaves no trace (not even an empty line)
+        meta_text = emit_meta(doc.meta, format_options)
+        if meta_text:
+            lines.append(meta_text)
 
     # Emit separator if present
     if doc.has_separator:
